@@ -5,7 +5,12 @@ import TracklibVerif.Drv.Util
       → <score> <S: i,j;i,j;…> <pairs: a,b;c;…> <nb_links> <diff,…> <ex,…> <ey,…>      (or `err:index`)
   compare <dtw|fdtw|frechet> <1|2|inf> <dim> <track1> <track2> → <value>
   table <1|2|inf> <D columns: d,d;d,d;…> → <T columns> <M columns: i:j,i:j;…>
-  track = x,y,z;x,y,z;…  (empty track = `_`) -/
+  seq <tracks: track|track|…> <pre: 0,1,…> <steps: step;step;…> → <reply> | <reply> | …
+      a session of calls on shared objects (`Model.DTWTable.runSeq`): object k < #tracks is track k (`pre` = 1: it already
+      carries `diff`, `pair`, `ex`, `ey` features with other values), object #tracks + s is what step s returned.
+      step = <m|c>:<mode constant>:<str(type(p)) without blanks>:<p as k|inf|->:<callable p computes k|inf|->:<dim>:<a>:<b>
+      reply = as for match / compare, or `err:…`
+  track = x,y,z;x,y,z;…  (empty track = `_`); p = 0, 1, 2, 3, … or inf -/
 namespace TV.Drv.C18
 open TV.DTW TV.Drv
 
@@ -23,16 +28,52 @@ def mode? : String → Option Mode
   | "frechet" => some .frechet
   | _ => none
 
-def pnorm? : String → Option PNorm
-  | "1" => some .one
-  | "2" => some .two
-  | "inf" => some .inf
-  | _ => none
-
 def dim? (s : String) : Option Nat :=
   match s.toNat? with
   | some d => if d = 1 ∨ d = 2 ∨ d = 3 then some d else none
   | none => none
+
+def pnorm? (s : String) : Option PNorm :=
+  if s == "inf" then some .inf else s.toNat?.map PNorm.nat
+
+/-- `x**(1.0/k)` -/
+def root (k : Nat) (x : Float) : Float :=
+  if k = 1 then x else if k = 2 then Float.sqrt x else Float.pow x (1.0 / k.toFloat)
+
+def optNorm? (s : String) : Option (Option PNorm) :=
+  if s == "-" then some none else (pnorm? s).map some
+
+def step? (s : String) : Option Step :=
+  match s.splitOn ":" with
+  | [f, m, ty, v, fn, d, a, b] => do
+    let front ← (if f == "m" then some true else if f == "c" then some false else none)
+    let mode ← m.toNat?
+    let val ← optNorm? v
+    let fnw ← optNorm? fn
+    let dim ← dim? d
+    let a ← a.toNat?
+    let b ← b.toNat?
+    some { front := front, mode := mode, p := { tyname := ty, val := val, fnw := fnw }, dim := dim, a := a, b := b }
+  | _ => none
+
+/-- the rows of a track that already has the four features, with values no matching would write -/
+def junkRows (t : List (Pt Float)) : List (Row Float) :=
+  (List.range t.length).map (fun j => { diff := some 5.0, pair := [9, j], ex := some 6.0, ey := some 7.0 })
+
+def obj? (tr : String) (pre : Nat) : Option (Option (TrackObj Float)) := do
+  let t ← track? tr
+  if pre = 0 then some (some (TrackObj.fresh t))
+  else if pre = 1 then some (some { pts := t, rows := junkRows t })
+  else none
+
+def zipObjs? : List String → List Nat → Option (List (Option (TrackObj Float)))
+  | [], [] => some []
+  | t :: ts, p :: ps => do
+    let o ← obj? t p
+    let r ← zipObjs? ts ps
+    some (o :: r)
+  | _, _ => none
+
 
 def big : Float := 1e300
 
@@ -42,6 +83,11 @@ def showOptF (o : Option Float) : String := showOpt showFloat o
 def showOut (o : Out Float) : String :=
   " ".intercalate [showFloat o.score, showPairs o.S, showListList toString (o.rows.map (·.pair)), toString o.nbLinks,
     showList showOptF (o.rows.map (·.diff)), showList showOptF (o.rows.map (·.ex)), showList showOptF (o.rows.map (·.ey))]
+
+def showRes : Res Float → String
+  | .matched o => showOut o
+  | .value v => showFloat v
+  | .err e => e
 
 def handle (cmd : String) (args : List String) : String :=
   match cmd, args with
@@ -55,10 +101,17 @@ def handle (cmd : String) (args : List String) : String :=
   | "compare", [m, p, d, a, b] =>
     match mode? m, pnorm? p, dim? d, track? a, track? b with
     | some m, some p, some d, some t1, some t2 =>
-      match compareTracks Float.sqrt Nat.toFloat big m p d t1 t2 with
+      match compareTracks Float.sqrt root Nat.toFloat big m p d t1 t2 with
       | .ok v => showFloat v
       | .error e => e
     | _, _, _, _, _ => "bad-request"
+  | "seq", [ts, pre, steps] =>
+    match natList? pre, (splitTok steps ';').mapM step? with
+    | some pre, some steps =>
+      match zipObjs? (splitTok ts '|') pre with
+      | some env => " | ".intercalate ((runSeq Float.sqrt root Nat.toFloat big env steps).map showRes)
+      | none => "bad-request"
+    | _, _ => "bad-request"
   | "table", [p, dc] =>
     match pnorm? p, floatListList? dc with
     | some p, some cols =>
